@@ -863,11 +863,78 @@ func classify(q *Q, nested bool, score string, extra bool, layout string) string
 	return fmt.Sprintf("%s:%s:%s@%s:%s", mappingName(nested), dir, q.Kind, pathRel(q), layout)
 }
 
-func isShapeClass(c string) bool { return c == classMustNot || c == classShouldMin || c == classDisjMin }
+func isShapeClass(c string) bool {
+	return c == classMustNot || c == classShouldMin || c == classDisjMin
+}
+
+// classAdvance: a boolean with a must clause hands the raw id of the must match (an element)
+// to Advance of its should / must-not searcher; when that clause contains a conjunction over
+// different nesting paths (NestedConjunctionSearcher), Advance moves the conjuncts on sibling
+// arrays to the element's own id and skips their matches inside the same parent.
+const classAdvance = "bool:cross-path-conjunction-inside-should/must-not-clause@advanced-to-element-id"
+
+// crossPathConj: q contains a conjunction (explicit, or the must part of a boolean) whose
+// fields do not share one nesting depth.
+func crossPathConj(q *Q) bool {
+	found := false
+	var walk func(q *Q)
+	walk = func(q *Q) {
+		var cl []*Q
+		switch q.Kind {
+		case "conj":
+			cl = q.Subs
+		case "bool":
+			cl = q.Must
+		}
+		if len(cl) > 0 {
+			if c, m := nestDepths(fieldSetOf(cl)); c < m {
+				found = true
+			}
+		}
+		for _, l := range [][]*Q{q.Subs, q.Must, q.Should, q.MustNot} {
+			for _, s := range l {
+				walk(s)
+			}
+		}
+	}
+	walk(q)
+	return found
+}
+
+func advanceShape(q *Q) bool {
+	found := false
+	var walk func(q *Q)
+	walk = func(q *Q) {
+		if q.Kind == "bool" && len(q.Must) > 0 {
+			for _, c := range q.MustNot {
+				if crossPathConj(c) {
+					found = true
+				}
+			}
+			if q.SMin >= 1 {
+				for _, c := range q.Should {
+					if crossPathConj(c) {
+						found = true
+					}
+				}
+			}
+		}
+		for _, l := range [][]*Q{q.Subs, q.Must, q.Should, q.MustNot} {
+			for _, s := range l {
+				walk(s)
+			}
+		}
+	}
+	walk(q)
+	return found
+}
 
 // unexplainedClass: the query contains a known defect shape, but the observed answer is
 // neither the reference answer nor what raw-id combination yields.
 func unexplainedClass(q *Q, extra bool, layout string) string {
+	if advanceShape(q) {
+		return classAdvance
+	}
 	dir := "missing"
 	if extra {
 		dir = "extra"
